@@ -350,8 +350,10 @@ def remove_previous_run_locks(args):
         # the same holds for the unpacked copy of a gzipped reference (see DatasetProcessor.__init__): --resume uses the one it finds
         ref_name, outer_ext = os.path.splitext(os.path.basename(args.reference))
         unpacked_reference = os.path.join(args.output, ref_name)
-        if outer_ext.lower() in ['.gz', '.gzip', '.bgz'] and os.path.isfile(unpacked_reference):
-            os.remove(unpacked_reference)
+        if outer_ext.lower() in ['.gz', '.gzip', '.bgz']:
+            for stale_file in [unpacked_reference, unpacked_reference + ".fai"]:
+                if os.path.isfile(stale_file):
+                    os.remove(stale_file)
 
 
 def load_previous_run(args):
